@@ -12,7 +12,14 @@
     table's contents (every candidate is verified by comparing bytes before a copy is emitted).
 -/
 import GocoinV.Base.Bytes
+import GocoinV.Gen.BlockDBFacts
 namespace GocoinV.Snappy
+
+/- constants regenerated from the snappy sources on every run (go/cmd/gen_c16) -/
+def MAXBLOCK : Nat := Gen.BlockDBFacts.snappyMaxBlockSize
+def MARGIN : Nat := Gen.BlockDBFacts.snappyInputMargin
+def MINNONLIT : Nat := Gen.BlockDBFacts.snappyMinNonLiteralBlockSize
+def HASHMUL : Nat := Gen.BlockDBFacts.snappyHashMul
 
 /-! ## varint length header (encoding/binary) -/
 
@@ -154,7 +161,7 @@ def load32 (src : Array UInt8) (i : Nat) : Nat :=
   at8 src i + 256 * at8 src (i + 1) + 65536 * at8 src (i + 2) + 16777216 * at8 src (i + 3)
 
 /-- `hash(u, shift) = (u * 0x1e35a7bd) >> shift` on uint32, then `& tableMask` -/
-def hashIdx (u shift : Nat) : Nat := ((u * 0x1e35a7bd) % 4294967296 / 2 ^ shift) % 16384
+def hashIdx (u shift : Nat) : Nat := ((u * HASHMUL) % 4294967296 / 2 ^ shift) % 16384
 
 /-- `extendMatch`-style loop: advance `i`,`s` while `s < len(src) && src[i] == src[s]`; returns `s` -/
 def extend (src : Array UInt8) : Nat → Nat → Nat → Nat
@@ -220,18 +227,18 @@ end
 /-- the emit calls of `encodeBlock(dst, src)` (17 ≤ len(src) ≤ 65536) -/
 def encodeBlockOps (src : Array UInt8) : List Elem :=
   let shift := shiftFor src.size
-  let e : Enc := { src := src, shift := shift, sLimit := src.size - 15 }
+  let e : Enc := { src := src, shift := shift, sLimit := src.size - MARGIN }
   scan e (src.size + 1) (Array.replicate 16384 0) 0 1 32 (hashIdx (load32 src 1) shift) []
 
 /-- the emit calls of one ≤ 65536-byte piece `p` in `Encode`'s loop -/
 def pieceOps (p : Array UInt8) : List Elem :=
-  if p.size < 17 then [.lit p.toList] else encodeBlockOps p
+  if p.size < MINNONLIT then [.lit p.toList] else encodeBlockOps p
 
 /-- the pieces `p` of `Encode`'s `for len(src) > 0` loop -/
 def pieces : Nat → Bytes → List Bytes
   | 0, _ => []
   | _ + 1, [] => []
-  | f + 1, src@(_ :: _) => src.take 65536 :: pieces f (src.drop 65536)
+  | f + 1, src@(_ :: _) => src.take MAXBLOCK :: pieces f (src.drop MAXBLOCK)
 
 /-- all emit calls of `Encode` -/
 def encodeOps (src : Bytes) : List Elem :=
